@@ -25,7 +25,10 @@ def is_proxy(x):
 
 def sx_len(x):
     if isinstance(x, SymBytes):
-        return SymInt(x.length())
+        t = x.length()
+        if z3.is_int_value(t):
+            return t.as_long()        # fully concrete content: behave like bytes
+        return SymInt(t)
     f = getattr(type(x), "__sx_len__", None)
     if f is not None:
         return f(x)
@@ -167,8 +170,24 @@ SHIMS = {"len": sx_len, "int": sx_int, "float": sx_float, "bool": sx_bool, "roun
 
 
 class Pass(ast.NodeTransformer):
-    def __init__(self):
+    def __init__(self, import_map=None):
         self.rewrites = 0
+        self.import_map = import_map or {}
+
+    def visit_ImportFrom(self, node):
+        if node.level == 0 and node.module in self.import_map:
+            node.module = self.import_map[node.module]
+            self.rewrites += 1
+        return node
+
+    def visit_Import(self, node):
+        for a in node.names:
+            if a.name in self.import_map:
+                if a.asname is None:
+                    a.asname = a.name
+                a.name = self.import_map[a.name]
+                self.rewrites += 1
+        return node
 
     def visit_Call(self, node):
         self.generic_visit(node)
@@ -225,7 +244,7 @@ class Loaded:
 
 
 def load(names=("exceptions", "io", "signal", "plotting", "util", "core"), root=None, overrides=None, pkgname=PKG,
-         trace_entered=True):
+         trace_entered=True, import_map=None):
     """overrides: {module_name: {global_name: object}} injected *before* the module body runs
     (so `from threading import Thread` can be pre-empted via sys.modules stubs by the caller) and
     re-applied after (so that they win over the module's own imports)."""
@@ -249,7 +268,7 @@ def load(names=("exceptions", "io", "signal", "plotting", "util", "core"), root=
             tree = ast.parse(src, path)
         except SyntaxError as ex:
             raise Unsupported("cannot parse %s: %s" % (path, ex))
-        p = Pass()
+        p = Pass(import_map if n in ("workers", "cmdline", "cmdline_util") else None)
         tree = p.visit(tree)
         ast.fix_missing_locations(tree)
         L.rewrites[n] = p.rewrites
@@ -265,7 +284,26 @@ def load(names=("exceptions", "io", "signal", "plotting", "util", "core"), root=
             d[k] = v
         sys.modules[pkgname + "." + n] = m
         setattr(pkg, n, m)
-        exec(compile(tree, path, "exec"), d)
+        saved_ak = sys.modules.get("auditok")
+        if n == "cmdline":
+            # `from auditok import AudioRegion, __version__` must resolve to the loaded package, not the installed one
+            for k in getattr(L.modules.get("core"), "__all__", []):
+                setattr(pkg, k, getattr(L.modules["core"], k))
+            try:
+                for line in open(os.path.join(root, "auditok", "__init__.py")):
+                    if line.startswith("__version__"):
+                        exec(line, pkg.__dict__)
+            except OSError:
+                pass
+            sys.modules["auditok"] = pkg
+        try:
+            exec(compile(tree, path, "exec"), d)
+        finally:
+            if n == "cmdline":
+                if saved_ak is None:
+                    sys.modules.pop("auditok", None)
+                else:
+                    sys.modules["auditok"] = saved_ak
         if "math" in d and isinstance(d["math"], types.ModuleType):
             d["math"] = MathShim()
         for k, v in overrides.get(n, {}).items():
